@@ -174,18 +174,16 @@ EXPORT errno_t _asctime_s_chk(char *dest, rsize_t dmax, const struct tm *tm,
     if (dmax >= 120) { /* glibc reserves 114 */
         buf = asctime_r(tm, dest);
         if (!buf) {
-#ifdef SAFECLIB_STR_NULL_SLACK
-            memset(dest, 0, dmax);
-#else
-            *dest = '\0';
-#endif
+            handle_error(dest, dmax, "asctime_s: conversion failed", -1);
             return -1;
         }
     } else {
         char tmp[120];
         buf = asctime_r(tm, (char *)&tmp);
-        if (!buf)
+        if (!buf) {
+            handle_error(dest, dmax, "asctime_s: conversion failed", -1);
             return -1;
+        }
         len = strlen(buf);
         if (likely(len < dmax)) {
             strcpy_s(dest, dmax, buf);
